@@ -60,6 +60,9 @@ pub enum RespDatum {
     ManyU8(u32),
     /// a block of this many zero bytes (for lengths the block header cannot express)
     ZeroBlock(u32),
+    /// 1..=8 character items handed over as ONE piece of response data (a `Vec` when the count
+    /// is even, an `ArrayVec` when odd): items separated by ',', however short an item's text is
+    ChrList(Vec<B>),
 }
 
 /// `n` pattern bytes with a static lifetime, built once per distinct `n`.
@@ -94,6 +97,14 @@ impl RespDatum {
             }
             RespDatum::BigBlock(n) => out.extend_from_slice(&crate::model::resp::encode_block(big_block(*n))),
             RespDatum::ZeroBlock(n) => out.extend_from_slice(&crate::model::resp::encode_block(zero_block(*n))),
+            RespDatum::ChrList(items) => {
+                for (i, it) in items.iter().enumerate() {
+                    if i > 0 {
+                        out.push(b',');
+                    }
+                    out.extend_from_slice(it);
+                }
+            }
             RespDatum::ManyU8(n) => {
                 for i in 0..*n {
                     if i > 0 {
@@ -173,6 +184,11 @@ pub struct UnitPlan {
     /// abort the message all the same (C05).
     #[serde(default)]
     pub swallow: bool,
+    /// queries only: after this many response data the handler calls `finish()` once for its own
+    /// book-keeping and ignores the result (the "errors are sticky, check at the end" idiom); the
+    /// value it returns is that of the final `finish()`, which must still report the first failure
+    #[serde(default)]
+    pub mid_finish: Option<u8>,
 }
 
 impl UnitPlan {
@@ -462,7 +478,10 @@ impl Rec {
             for h in &plan.headers {
                 resp.header(h);
             }
-            for d in &plan.respond {
+            for (di, d) in plan.respond.iter().enumerate() {
+                if plan.mid_finish == Some(di as u8) {
+                    let _ = resp.finish();
+                }
                 match d {
                     RespDatum::I32(v) => resp.data(*v),
                     RespDatum::U8(v) => resp.data(*v),
@@ -474,6 +493,8 @@ impl Rec {
                     RespDatum::Expr(s) => resp.data(Expression(&s[..])),
                     RespDatum::BigBlock(n) => resp.data(Arbitrary(big_block(*n))),
                     RespDatum::ZeroBlock(n) => resp.data(Arbitrary(zero_block(*n))),
+                    RespDatum::ChrList(items) if items.len() % 2 == 0 => resp.data(items.iter().map(|i| Character(&i[..])).collect::<Vec<_>>()),
+                    RespDatum::ChrList(items) => resp.data(items.iter().take(8).map(|i| Character(&i[..])).collect::<arrayvec::ArrayVec<_, 8>>()),
                     RespDatum::ManyU8(n) => {
                         for i in 0..*n {
                             resp.data((i % 251) as u8);
